@@ -10,6 +10,7 @@ use std::sync::Arc;
 use std::time::Duration;
 
 pub mod c01n;
+pub mod c02n;
 pub mod c03;
 pub mod c04;
 pub mod c06n;
